@@ -527,11 +527,7 @@ func (prog *Program) LoadContracts(file string, pkg *types.Package, extern bool)
 							ls.Modifies = append(ls.Modifies, cl)
 						}
 					case "unroll":
-						k, err := strconv.Atoi(body)
-						if err != nil {
-							return fmt.Errorf("%s:%d: bad unroll count", file, l.line)
-						}
-						ls.Unroll = k
+						return fmt.Errorf("%s:%d: loop unrolling is not implemented; give an invariant", file, l.line)
 					default:
 						return fmt.Errorf("%s:%d: bad loop clause kind %s", file, l.line, f[1])
 					}
